@@ -77,7 +77,12 @@ Fixpoint type_of (e : expr) : ty :=
   | ENary _ t _ => t
   | ESeq es => (fix last (l : list expr) : ty :=
                   match l with [] => TNone | [x] => type_of x | _ :: t => last t end) es
-  | EIf _ th _ => type_of th
+  | EIf _ th None => type_of th
+  | EIf _ th (Some el) =>
+      (* If.type_of (since the repair "If compares the types of arms attached through ElseIf" and its follow-up): both arms have
+         the same type, or one of them is anytype and then the expression is anytype *)
+      let a := type_of th in let b := type_of el in
+      if ty_eqb a b then a else TAny
   | ECond arms => match arms with (_, v) :: _ => type_of v | [] => TNone end
   | EWhile _ _ | EFor _ _ _ _ | EBreak | EContinue | EAssert _ _ | EReturn _ | EExit _ => TNone
   | EMulti _ _ _ _ => TNone
